@@ -235,8 +235,11 @@ class DCAwareRoundRobinPolicy(LoadBalancingPolicy):
         return host.datacenter or self.local_dc
 
     def populate(self, cluster, hosts):
-        for dc, dc_hosts in groupby(hosts, lambda h: self._dc(h)):
-            self._dc_live_hosts[dc] = tuple(set(dc_hosts))
+        for host in hosts:
+            dc = self._dc(host)
+            current_hosts = self._dc_live_hosts.get(dc, ())
+            if host not in current_hosts:
+                self._dc_live_hosts[dc] = current_hosts + (host, )
 
         if not self.local_dc:
             self._endpoints = [
